@@ -839,6 +839,7 @@ func (ctx *context) Run() (res *Result) {
 
 	for x, instr := range ctx.prog {
 		ctx.addDebugInstrAndStack(instr.fnName)
+		verifYield(2)
 		instr.fn(ctx)
 		ctx.addDebug(ctx.pfx + "----\n")
 		_ = x
